@@ -284,15 +284,19 @@ def _job_paths(job):
             factory = lambda: RawFileSystem(root + os.sep)
         elif kind == 'chain':
             factory = lambda: FileSystemChain(RawFileSystem(root))
+        elif kind == 'chain_up':          # a member whose subfolder prefix itself leaves the root
+            factory = lambda: FileSystemChain((RawFileSystem(root), '..'))
+        elif kind == 'chain_sibling':
+            factory = lambda: FileSystemChain((RawFileSystem(root), '../rootx'))
         else:
             factory = lambda: FileSystemChain((RawFileSystem(root), 'sub'))
         # the names a walk may yield: those of the files really located below the root (relative to the walked
         # member's folder - a chain over the subfolder 'sub' may be asked for '..', which is still inside the root),
         # found independently with os.walk
-        top = os.path.join(root, 'sub') if kind == 'chain_sub' else root
+        top = os.path.normpath(os.path.join(root, {'chain_sub': 'sub', 'chain_up': '..', 'chain_sibling': '../rootx'}.get(kind, '')))
         # an unconstrained filesystem on the same folder asks first: nothing it learnt may be served by the constrained one
         twin = RawFileSystem(root, constrain_path=False)
-        for q in (path, os.path.join('sub', path) if kind == 'chain_sub' else path):
+        for q in (path, os.path.join({'chain_sub': 'sub', 'chain_up': '..', 'chain_sibling': '../rootx'}.get(kind, ''), path)):
             try:
                 twin[q]
                 q in twin
@@ -302,6 +306,11 @@ def _job_paths(job):
         for dirpath, _dirs, fnames in os.walk(root):
             for fn in fnames:
                 allowed.add(os.path.relpath(os.path.join(dirpath, fn), top).replace('\\', '/'))
+        if kind in ('chain_up', 'chain_sibling'):
+            # the chain names walked files relative to its prefix with os.path.relpath, which for a prefix outside the
+            # member is not meaningful (it depends on the working directory); the files are still inside the root, and
+            # that - what is served, checked through the content - is what the property is about
+            allowed = None
         bad = _probe(factory, root, path, allowed)
         return bad
     finally:
@@ -311,7 +320,7 @@ def _job_paths(job):
 @bounded('C18.B-paths', bound='real tree with root/, root/sub/, sibling rootx/, root/rootx/, other/ and a file above the '
          'root; all paths of <= 3 components (thorough: <= 4) over 12 names incl. "..", ".", root, rootx; both '
          'separators; relative, absolute (root / parent) and leading-separator forms; roots with and without trailing '
-         'separator; plain, chained and subfolder-chained filesystems; open_str/open_bin/[]/in/walk_folder (content of '
+         'separator; plain, chained and subfolder-chained filesystems (subfolder sub, and the escaping prefixes .. and ../rootx); open_str/open_bin/[]/in/walk_folder (content of '
          'everything opened, and every name a walk yields, must belong to a file located inside the root)',
          rule='one case per (filesystem kind, path); non-trivial when the path contains ".." or an absolute prefix')
 def b_paths(ctx):
@@ -325,7 +334,8 @@ def b_paths(ctx):
                 for prefix in ('', 'abs_base', 'abs_root', 'slash'):
                     if prefix and n > 2:
                         continue
-                    for kind in ('raw', 'chain_sub') if n == 3 else ('raw', 'raw_trailing', 'chain', 'chain_sub'):
+                    for kind in ('raw', 'chain_sub') if n == 3 else ('raw', 'raw_trailing', 'chain', 'chain_sub', 'chain_up',
+                                                                     'chain_sibling'):
                         jobs.append((kind, parts, sep, prefix))
     if not ctx.thorough:
         keep = [j for j in jobs if len(j[1]) <= 2]
